@@ -10,6 +10,9 @@
 // FileReader.ReadAt / Seek+Read / ReadAll compared with the interpreter.
 // Part 2b (huge.go): sparse trees with holes, offsets and sizes beyond 2^31 / 2^32, read
 // around their late part boundaries against a lazy interpreter of the stored JSON.
+// Part 2c (holes.go): trees with holes of 4 KiB-1 ... 2 MiB read with one ReadAt / Read /
+// io.ReadFull call into buffers pre-filled with non-zero bytes (4 KiB+1, 8 KiB, 64 KiB,
+// 1 MiB, seeded sizes) and through io.CopyBuffer with a reused buffer.
 // Part 3 (dirs.go): static-set splitting with a lowered threshold and, for a few large
 // directories, with perkeep's own threshold (real sha224 / sha256 / sha1 refs): every
 // static-set blob the writer produces is a schema blob within the size limit,
@@ -72,6 +75,7 @@ func run(r *ev.Run) {
 	jobs = append(jobs, writerJobs(r)...)
 	jobs = append(jobs, treeJobs(r)...)
 	jobs = append(jobs, hugeJobs(r)...)
+	jobs = append(jobs, holeJobs(r)...)
 	jobs = append(jobs, faultJobs(r)...)
 
 	// heavy jobs first
@@ -109,7 +113,7 @@ func run(r *ev.Run) {
 	close(ch)
 	wg.Wait()
 
-	r.Extra("tier_sizes", map[string]int{"file_cases": countPrefix(jobs, "w"), "tree_cases": countPrefix(jobs, "t"), "sparse_tree_cases": countPrefix(jobs, "h"), "faulted_write_cases": countPrefix(jobs, "f")})
+	r.Extra("tier_sizes", map[string]int{"file_cases": countPrefix(jobs, "w"), "tree_cases": countPrefix(jobs, "t"), "sparse_tree_cases": countPrefix(jobs, "h"), "hole_tree_cases": countPrefix(jobs, "z"), "faulted_write_cases": countPrefix(jobs, "f")})
 	if os.Getenv("VERIF_ONLY") == "" {
 		requireAll(r)
 	}
@@ -171,14 +175,24 @@ func requireAll(r *ev.Run) {
 		"root=file", "root=bytes", "depth=1", "depth=2", "depth=3",
 		"hole", "blob-full", "blob-offset", "blob-short", "blob-offset+short",
 		"bytes-full", "bytes-offset", "bytes-short", "bytes-offset+short",
-		"same-blob-twice", "same-blob-adjacent", "shared-bytes-node", "single-part", "hole-only", "empty-root", "known-witness")
+		"same-blob-twice", "same-blob-adjacent", "shared-bytes-node", "single-part", "hole-only", "empty-root", "known-witness", "hole>4Ki")
 	r.Require("read_kinds", "readat", "readat-beyond-eof", "readat-short-at-eof", "seek+read", "sequential-read", "readall",
 		"readat-mid-part-crossing-short-part", "foreachchunk-tree", "foreachchunk-nested-tree")
 	// part 2b
 	r.Require("sparse_tree_shape", "huge-hole", "root=file", "root=bytes", "depth=1", "depth=2", "depth=3", "size>=2^32",
 		"blob-offset", "blob-short", "bytes-full", "bytes-short", "bytes-offset", "bytes-offset>=2^31", "bytes-offset>=2^32")
 	r.Require("sparse_read", "readat-blob-partstart@>=2^32", "readat-blob-midpart-crossing@>=2^32", "readat-hole-midpart-crossing@>=2^32",
-		"readat-hole-midpart@>=2^31", "readat-blob-partstart-crossing@>=2^31", "seek+read@>=2^32", "seek+read@>=2^31")
+		"readat-hole-midpart@>=2^31", "readat-blob-partstart-crossing@>=2^31", "seek+read@>=2^32", "seek+read@>=2^31",
+		"readat-dirty:buf=4Ki+1", "readat-dirty:buf=8Ki", "readat-dirty:buf=64Ki", "readat-dirty:buf=1Mi",
+		"readat-dirty:inside-hole@>=2^32", "readat-dirty:runs-into-hole@>=2^31", "readat-dirty:leaves-hole-after>4Ki@>=2^32", "seek+read-dirty>4Ki")
+	// part 2c
+	r.Require("hole_tree_shape", "hole>4Ki", "hole>=64Ki", "hole>=1Mi", "root=file", "root=bytes", "depth=1", "depth=2", "depth=3", "bytes-offset", "bytes-short", "bytes-full")
+	r.Require("hole_read",
+		"readat:one-call-hole-bytes>4Ki", "readat:one-call-hole-bytes>=64Ki", "readat:one-call-hole-bytes>=1Mi",
+		"readat:buf=4Ki+1", "readat:buf=8Ki", "readat:buf=64Ki", "readat:buf=1Mi",
+		"read:one-call-hole-bytes>4Ki", "read:one-call-hole-bytes>=64Ki", "read:one-call-hole-bytes>=1Mi",
+		"read:buf=4Ki+1", "read:buf=8Ki", "read:buf=64Ki", "read:buf=1Mi",
+		"copybuffer:buf=4Ki+1", "copybuffer:buf=8Ki", "copybuffer:buf=64Ki", "copybuffer:buf=1Mi")
 	// part 3
 	r.Require("dir_branch", "single", "split-flat/exact", "split-flat/rest", "split-recursive/exact", "split-recursive/rest")
 	r.Require("dir_threshold", "m=3", "m=4", "m=7", "production")
